@@ -8,6 +8,7 @@ import (
 	"encoding/xml"
 	"fmt"
 	"io"
+	"mellium.im/xmlstream"
 
 	"mellium.im/xmpp"
 	"mellium.im/xmpp/jid"
@@ -77,6 +78,43 @@ func NewReceived(ns string, input string) (*xmpp.Session, *RW, error) {
 		st |= xmpp.S2S
 	}
 	s, err := xmpp.NewSession(context.Background(), Location, Origin, rw, st, ReadyNegotiator(ns, 0))
+	return s, rw, err
+}
+
+// NewReceivedNegotiated returns a received session established by the library's
+// own default negotiator: nothing is known in advance, the addresses come from
+// the peer's stream header (which names only us), and one trivial feature
+// selected by the peer makes the session ready.
+func NewReceivedNegotiated(ns string, input string) (*xmpp.Session, *RW, error) {
+	hdr := `<stream:stream xmlns='` + ns + `' xmlns:stream='http://etherx.jabber.org/streams' version='1.0' to='example.net'>`
+	rw := &RW{In: bytes.NewReader([]byte(hdr + `<r xmlns='urn:verif:ready'/>` + input))}
+	var st xmpp.SessionState
+	if ns == stanza.NSServer {
+		st = xmpp.S2S
+	}
+	ready := xmpp.StreamFeature{
+		Name: xml.Name{Space: "urn:verif:ready", Local: "r"},
+		List: func(ctx context.Context, e xmlstream.TokenWriter, start xml.StartElement) (bool, error) {
+			if err := e.EncodeToken(start); err != nil {
+				return true, err
+			}
+			return true, e.EncodeToken(start.End())
+		},
+		Parse: func(ctx context.Context, d *xml.Decoder, start *xml.StartElement) (bool, interface{}, error) {
+			return true, nil, d.Skip()
+		},
+		Negotiate: func(ctx context.Context, s *xmpp.Session, data interface{}) (xmpp.SessionState, io.ReadWriter, error) {
+			r := s.TokenReader()
+			defer r.Close()
+			if _, err := r.Token(); err != nil {
+				return 0, nil, err
+			}
+			return xmpp.Ready, nil, xmlstream.Skip(r)
+		},
+	}
+	s, err := xmpp.ReceiveSession(context.Background(), rw, st, xmpp.NewNegotiator(func(*xmpp.Session, *xmpp.StreamConfig) xmpp.StreamConfig {
+		return xmpp.StreamConfig{Features: []xmpp.StreamFeature{ready}}
+	}))
 	return s, rw, err
 }
 
